@@ -530,6 +530,7 @@ type dobj struct {
 	origin int    // pool entry it was built from
 	tag    string // step that built it (its method closures log this tag)
 	cur    string // the ServiceName the CALLER has given it last
+	conf   bool   // built by a conformance op: its HandlerType is not the pool entry's
 }
 
 type reg struct {
@@ -951,8 +952,25 @@ func opEnabled(op string, names map[string]bool) bool {
 
 // register makes one registration attempt with descriptor object o (whose ServiceName is name at
 // this moment) and a handler of the given kind, on the real object, the model and the reference.
-func (x *pctx) register(c carrier, m model, op, kind, name string, o *dobj, tag, before string) (probs []problem) {
-	h := makeHandler(o.origin, kind, tag)
+//
+// cc != nil: the handler value and whether it implements the descriptor's HandlerType come from the
+// handler-conformance dimension (conform.go); the registration is then treated like "reg" / "reg-tnil"
+// when the handler implements the interface, and as the ill-typed kind "ill-shape" when it does not.
+func (x *pctx) register(c carrier, m model, op, kind, name string, o *dobj, tag, before string, cc *confCase) (probs []problem) {
+	var h interface{}
+	if cc != nil {
+		h = cc.h
+		switch {
+		case !cc.implements:
+			kind = "ill-shape"
+		case cc.hd.hkind == "tnil":
+			kind = "reg-tnil"
+		default:
+			kind = "reg"
+		}
+	} else {
+		h = makeHandler(o.origin, kind, tag)
+	}
 	old, dup := m[name]
 	wellTyped := kind == "reg" || kind == "reg-tnil"
 	either := kind == "reg-nil" && !dup // see nilHandlerRule
@@ -965,6 +983,8 @@ func (x *pctx) register(c carrier, m model, op, kind, name string, o *dobj, tag,
 		why = "untyped nil handler"
 	case wellTyped || either:
 		why = "first registration for the name, handler acceptable"
+	case cc != nil:
+		why = fmt.Sprintf("handler %T does not implement the service interface %v (%s)", h, reflect.TypeOf(o.d.HandlerType).Elem(), cc.relation)
 	default:
 		why = fmt.Sprintf("handler %T does not implement the service interface", h)
 	}
@@ -975,6 +995,15 @@ func (x *pctx) register(c carrier, m model, op, kind, name string, o *dobj, tag,
 		detail = fmt.Sprintf("%s[held=%s,new=%s]", name, hkindLabel(old.hkind), hkindLabel(hkindOf(kind)))
 	} else if !dup && kind == "reg-tnil" {
 		detail = name + "[new=tnil]"
+	}
+	if cc != nil {
+		// the parameter that matters is the relation between handler and interface, not the name
+		switch {
+		case !cc.implements:
+			detail = cc.relation
+		case !dup:
+			detail = "implements:" + cc.iface.name + "<-" + cc.hd.name
+		}
 	}
 	// class of the refusal (if it is one): why the registration has to be / may be refused
 	class := kind
@@ -1058,7 +1087,16 @@ func (x *pctx) applyOp(c carrier, m model, op string, step int) (probs []problem
 	case isRegKind(kind):
 		i := poolIndex(name)
 		o := &dobj{d: x.makeDesc(i, tag), origin: i, tag: tag, cur: name} // a FRESH descriptor object
-		probs = x.register(c, m, op, kind, name, o, tag, before)
+		probs = x.register(c, m, op, kind, name, o, tag, before, nil)
+	case isConfKind(kind):
+		// handler-conformance dimension (conform.go): a FRESH descriptor object built from the pool entry,
+		// its HandlerType replaced by the interface of the pair, registered with the handler value of the pair
+		i := poolIndex(name)
+		cc := newConfCase(kind, tag)
+		d := x.makeDesc(i, tag)
+		d.HandlerType = cc.iface.htype
+		o := &dobj{d: d, origin: i, tag: tag, cur: name, conf: true}
+		probs = x.register(c, m, op, kind, name, o, tag, before, cc)
 	case isShareKind(kind):
 		src, nw := splitEdit(name)
 		r, ok := m[src]
@@ -1070,7 +1108,10 @@ func (x *pctx) applyOp(c carrier, m model, op string, step int) (probs []problem
 		o := r.obj
 		was := o.cur
 		o.d.ServiceName, o.cur = nw, nw // the caller patches the name of the object it registered before
-		probs = x.register(c, m, op, kind[len("share-"):], nw, o, tag, before)
+		if r.obj.conf {
+			panic("checker: share-* of a descriptor registered by a conformance op is not in the grammar (" + op + ")")
+		}
+		probs = x.register(c, m, op, kind[len("share-"):], nw, o, tag, before, nil)
 		x.lastObs = fmt.Sprintf("%s (held under %s, named %s) renamed %s; %s", x.id(o.d), src, was, nw, x.lastObs)
 	case kind == "rename":
 		src, nw := splitEdit(name)
@@ -1385,6 +1426,9 @@ func (x *pctx) infoOracle(c carrier, m model, probs *[]problem) {
 
 const infoRepeats = 64
 
+// confQuickGood: how many of the implementing representatives the quick tier sweeps around every BFS state
+const confQuickGood = 4
+
 // stateOracle evaluates every read operation in the current state.
 func (x *pctx) stateOracle(c carrier, m model) (probs []problem) {
 	if k := x.implKey(c, m); k != m.key() {
@@ -1435,6 +1479,7 @@ type job struct {
 	// library call but RegisterService itself, and F's own library call is the FIRST call made on the
 	// object after R; the state oracle after F asks for the pool names and the unknown name only.
 	probe bool
+	light bool         // the state oracle asks for the pool names and the unknown name only (no near misses)
 	trace func(string) // verbose child
 	// control of a case that hung inside a registration attempt: the last op makes its RegisterService
 	// call and nothing after it (no state key, no reads)
@@ -1464,6 +1509,7 @@ func runPath(j job) (res result) {
 	m := model{}
 	x.m = m
 	x.trace = j.trace
+	x.light = j.light
 	for i, op := range j.ops {
 		if x.trace != nil {
 			x.trace(fmt.Sprintf("A %d %s", i, op))
@@ -1688,10 +1734,23 @@ func main() {
 	if rep.Tier == "thorough" {
 		probeMaxRegs = 3
 	}
+	// ---------------- the handler-conformance dimension (conform.go): its tables
+	confPairs := confMatrix()
+	if err := confSelfCheck(confPairs); err != nil {
+		fmt.Fprintln(os.Stderr, "INCONCLUSIVE: checker:", err)
+		os.Exit(2)
+	}
+	confIll, confGood := confRepresentatives(confPairs)
+	confReps := append(append([]confPair{}, confIll...), confGood...)
+	confProbeMaxRegs := 1
+	if rep.Tier == "thorough" {
+		confProbeMaxRegs = 2
+	}
+
 	var probes []probe
 	probeCounts := map[string]interface{}{}
 	for _, cn := range carrierNames {
-		ps := buildProbes(cn, probeMaxRegs, sweepKinds)
+		ps := buildProbes(cn, probeMaxRegs, sweepKinds, confIll, confProbeMaxRegs)
 		st := map[string]bool{}
 		rs := map[string]bool{}
 		for _, p := range ps {
@@ -1777,6 +1836,51 @@ func main() {
 	}
 	atomic.StoreInt32(&stallWatch, 1)
 
+	// ---------------- handler conformance: the full matrix
+	//
+	// every (service interface, handler value) pair x every pool descriptor of the carrier (its methods,
+	// streams and metadata; the HandlerType is the pair's interface) x prefix state (nothing registered |
+	// another name registered | the name itself registered with a pointer | ... with a typed-nil pointer),
+	// each followed by the full state oracle
+	confEvals, confImplementing, confSweeps := 0, 0, 0
+	confRelations := map[string]int{}
+	for _, p := range confPairs {
+		if p.implements {
+			confImplementing++
+		} else {
+			confRelations[p.relation]++
+		}
+	}
+	confSampleWant := map[string]bool{"conf(I3,P3)": true, "conf(I3,Sparam)": true, "conf(I2,V2val)": true, "conf(I2,M2val)": true, "conf(I2alien,U)": true, "conf(I2alien,Ua)": true}
+	for _, cn := range carrierNames {
+		if hungCarriers[cn] {
+			continue
+		}
+		idx := poolFor(cn)
+		var js []job
+		for k, i := range idx {
+			name := pool[i].name
+			other := pool[idx[(k+1)%len(idx)]].name
+			for _, p := range confPairs {
+				for _, prefix := range [][]string{nil, {"reg:" + other}, {"reg:" + name}, {"reg-tnil:" + name}} {
+					js = append(js, job{carrier: cn, ops: append(append([]string{}, prefix...), p.kind()+":"+name), all: true})
+				}
+			}
+		}
+		results := runAll(len(js), func(i int) job { return js[i] })
+		for i, res := range results {
+			confEvals++
+			reportJob(js[i], res.probs)
+			nontrivial[cn+"|conformance-matrix|"+strings.Join(js[i].ops, " ")] = true
+			if op := js[i].ops[len(js[i].ops)-1]; cn == "HandlerMap" && len(js[i].ops) == 1 && strings.HasSuffix(op, ":p.Mixed") && confSampleWant[opKind(op)] {
+				samples = append(samples, map[string]interface{}{"carrier": cn, "space": "conformance-matrix", "from": "{}", "op": op, "to": res.key, "observed": res.obs, "problems": len(res.probs)})
+			}
+		}
+		if os.Getenv("VERIF_C15_TIMING") != "" {
+			fmt.Fprintf(os.Stderr, "timing: %s conformance matrix done at %.1fs (%d cases)\n", cn, time.Since(t0).Seconds(), confEvals)
+		}
+	}
+
 	// ---------------- BFS
 	//
 	// Two state spaces per carrier:
@@ -1820,6 +1924,10 @@ func main() {
 		counts         map[string]int
 	}
 	var spaces []space
+	confSweepPairs := confReps
+	if rep.Tier != "thorough" {
+		confSweepPairs = append(append([]confPair{}, confIll...), confGood[:confQuickGood]...)
+	}
 	for _, cn := range carrierNames {
 		regOps, readOps, mutOps := opsFor(cn)
 		var names []string
@@ -1828,7 +1936,15 @@ func main() {
 		}
 		share, rename := editOps(names, sweepKinds, append(append([]string{}, names...), unknownName))
 		ops := append(append(append(append(append([]string{}, regOps...), readOps...), mutOps...), share...), rename...)
-		spaces = append(spaces, space{"full-pool", cn, ops, true, map[string]int{"ops": len(ops), "register_ops": len(regOps), "read_ops": len(readOps), "mutate_ops": len(mutOps), "share_ops": len(share), "rename_ops": len(rename)}})
+		// the representative pairs of the handler-conformance dimension on every name, swept like the descriptor edits
+		var conf []string
+		for _, p := range confSweepPairs {
+			for _, n := range names {
+				conf = append(conf, p.kind()+":"+n)
+			}
+		}
+		ops = append(ops, conf...)
+		spaces = append(spaces, space{"full-pool", cn, ops, true, map[string]int{"ops": len(ops), "register_ops": len(regOps), "read_ops": len(readOps), "mutate_ops": len(mutOps), "share_ops": len(share), "rename_ops": len(rename), "conformance_ops": len(conf)}})
 	}
 	for _, cn := range carrierNames {
 		var names, regOps, readOps []string
@@ -1923,7 +2039,7 @@ func main() {
 				nilRef += res.nilRef
 				ntKey := cn + "|" + sp.label + "|" + nd.key + "|" + op
 				switch {
-				case isRegKind(kind):
+				case isRegKind(kind) || isConfKind(kind):
 					nontrivial[ntKey] = true
 				case isDescEditKind(kind):
 					// enabled, so it changed the name of a descriptor the registry holds
@@ -1952,6 +2068,10 @@ func main() {
 				}
 				if sp.sweepEdits && isDescEditKind(kind) {
 					editSweeps++
+					continue // swept, not expanded
+				}
+				if isConfKind(kind) {
+					confSweeps++
 					continue // swept, not expanded
 				}
 				if !visited[k] {
@@ -2104,6 +2224,48 @@ func main() {
 		}
 	}
 	sequences += editSequences
+
+	// family 3, handler conformance: every TWO registration attempts  conf(I1,H1):A ; conf(I2,H2):X  with
+	// X = A or another name B, the first pair over the representatives (thorough: over all pairs on the
+	// HandlerMap, over all implementing pairs on the transports), the second over ALL pairs: a verdict on
+	// one (interface, handler) pair must not depend on what was offered or accepted before (same interface
+	// with another handler, same handler type with another interface, ...). Light state oracle after the
+	// second attempt; each attempt's own contract (panic or not, registry state) is checked as always.
+	confSequences := 0
+	for _, cn := range carrierNames {
+		if hungCarriers[cn] {
+			continue
+		}
+		a, b := pool[1].name, pool[3].name
+		firsts := confReps
+		if rep.Tier == "thorough" {
+			firsts = nil
+			for _, p := range confPairs {
+				if cn == "HandlerMap" || p.implements {
+					firsts = append(firsts, p)
+				}
+			}
+		}
+		var js []job
+		for _, f := range firsts {
+			for _, s := range confPairs {
+				for _, x := range []string{a, b} {
+					js = append(js, job{carrier: cn, ops: []string{f.kind() + ":" + a, s.kind() + ":" + x}, light: true})
+				}
+			}
+		}
+		results := runAll(len(js), func(i int) job { return js[i] })
+		for i, res := range results {
+			confSequences++
+			if len(res.probs) > 0 {
+				reportJob(js[i], res.probs)
+			}
+		}
+		if os.Getenv("VERIF_C15_TIMING") != "" {
+			fmt.Fprintf(os.Stderr, "timing: %s sequences family 3 (conformance) done at %.1fs (%d)\n", cn, time.Since(t0).Seconds(), confSequences)
+		}
+	}
+	sequences += confSequences + confEvals
 
 	nilTreatment := "refused by panicking"
 	switch {
